@@ -123,7 +123,7 @@ def run_case(case):
             gap, tol, fstar, n, m, spec["cond"], s.flag, s.msg[:40], s.nf), gap=gap, fstar=fstar, obj=s.obj, x=s.x, xstar=xstar))
     if s.flag != s.EXIT_SUCCESS:
         res["viol"].append(V("no-success-flag", "flag=%d (%s) on a linear problem; gap %.3e, nf=%d" % (s.flag, s.msg, gap, s.nf),
-                             flag=s.flag, msg=s.msg, gap=gap))
+                             flag=s.flag, message=s.msg, gap=gap))
     st["worst_gap_over_tol_ppm"] = 0
     if nact > 0 or m != n:
         res["nontrivial"].append(oracles.cfg_hash(cfg))
